@@ -845,6 +845,9 @@ func (f *frame) applyContract(at ssa.Instruction, ct *Contract, args []T, st *St
 				f.havocPattern(st, m, ct, env)
 			}
 		}
+		if ct.Allocates && e.ver(st, "W") == e.ver(old, "W") {
+			f.bumpW(st)
+		}
 		e.assume(implies(st.cond, "(>= "+e.H(st, "W", "Int")+" "+e.H(old, "W", "Int")+")"))
 	default:
 		samePkg := ct.Fn != nil && ct.Fn.Pkg != nil && f.root.fn.Pkg != nil && ct.Fn.Pkg == f.root.fn.Pkg
@@ -928,7 +931,7 @@ func (e *Enc) modAllows(ct *Contract, name string) bool {
 		case strings.HasPrefix(name, "GV_") && strings.HasPrefix(m, strings.TrimPrefix(name, "GV_")+"("):
 			return true // per-object ghost update (coarse for the frame check)
 		}
-		if i := strings.Index(m, "."); i > 0 && ct.Pkg != nil && !strings.HasPrefix(m, "heap:") {
+		if i := strings.Index(m, "."); i > 0 && ct.Pkg != nil && !strings.HasPrefix(m, "heap:") && !strings.Contains(m, "(") {
 			tn, fld := m[:i], m[i+1:]
 			if j := strings.Index(fld, "@"); j > 0 {
 				continue // per-object clause: handled by frameObligations
